@@ -105,6 +105,18 @@ def diverges(fn, region):
 def check_referral_glue(R, F):
     dr = F.fn(Q + 'do_referral')
     direct = calls_in(dr, Q + 'add_additional_addresses')
+    # ordering, independent of how the name servers are collected: every mandatory glue lookup (a direct, error-
+    # propagating add_additional_addresses call) happens before any optional one (through execute_allowing_truncation) --
+    # otherwise an optional record that does not fit could pre-empt glue that must be there
+    opt = [b for b, t in calls_in(dr, Q + 'execute_allowing_truncation')]
+    if direct and opt:
+        late = None
+        for ob in opt:
+            for mb, mt in direct:
+                p_ = dr.find_path(dr.blocks[ob]['term']['t'], lambda x, mb=mb: x == mb) if dr.blocks[ob]['term']['t'] is not None else None
+                late = late or p_
+        R.require(late is None, 'referral-glue', Q + 'do_referral|mandatory-before-optional', dr.where(direct[0][0]), 'all mandatory glue is written before any optional address lookup',
+                  'a mandatory glue lookup can run after an optional one (%s): optional data that does not fit may pre-empt glue' % (paths.fmt_path(dr, late) if late else ''))
     clos = F.closures_of(Q + 'do_referral')
     inclos = [(c, b, t) for c in clos for b, t in calls_in(c, Q + 'add_additional_addresses')]
     pushes = calls_in(dr, 'std::vec::Vec::<T, A>::push')
